@@ -60,7 +60,7 @@ REQUIRE = {"requests_arrived": 800, "arrival_order_checks": 800, "rx_events_chec
            "responses_entries_checked": 500, "redirect_histories_checked": 60, "downgrade_cases": 8,
            "rounds_with_response_pending_and_more_requests_queued": 200, "healthy_progress_checks": 100}
 _EXH = ("queues of 1-3 requests x {immediate, delayed, dribbled} x {no redirect, 302 same server, 307 other port} (each request of the queue "
-        "uses the same behaviour); plus reconnect-after-`Connection: close` x next response dribbled {1,2,3,16,all} bytes/round x {GET, POST} x {final, 302}")
+        "uses the same behaviour); plus reconnect-after-`Connection: close` x next response dribbled {1,2,3,16,all} bytes/round x {GET, POST} x {final length/chunked/EOF-delimited, 302 chunked}")
 EXHAUSTIVE = {"quick": _EXH, "thorough": _EXH}
 
 PORT_BASE = 42000
@@ -135,7 +135,7 @@ def cases(tier, seed, shard, nshards):
     # next response arrives d bytes per round (the receive buffer runs empty between reads on the NEW connection)
     for d in (1, 2, 3, 16, 0):
         for method in ("GET", "POST"):
-            for redirect in ("none", "same"):
+            for redirect, framing in (("none", "length"), ("none", "chunked"), ("none", "eof"), ("same", "chunked")):
                 if i % nshards == shard:
                     reqs = [fixed_req(f"K{i}q{j}", "immediate", "none") for j in range(3)]
                     reqs[0]["hops"][-1]["connclose"] = True
@@ -143,8 +143,7 @@ def cases(tier, seed, shard, nshards):
                     reqs[1]["method"] = method
                     reqs[1]["body"] = "reconnect-body" if method == "POST" else ""
                     reqs[1]["hops"][0]["dribble"] = d     # the first response on the NEW connection arrives d bytes per round
-                    if redirect == "same":
-                        reqs[1]["hops"][0]["framing"] = "chunked"
+                    reqs[1]["hops"][0]["framing"] = framing
                     yield {"kind": "reconnect", "tls": False, "reconnectable": True, "reqs": reqs}
                 i += 1
     rng = random.Random(f"{seed}:C19:{shard}")
@@ -202,18 +201,19 @@ class World:
     def ev(self, *a):
         self.log.append([self.rnd] + list(a))
 
-    def abandoned(self, oid):
-        """How does the client stand to the outstanding request `oid` at the moment more request bytes arrive?"""
+    def abandoned(self, oid, ohop):
+        """How does the client stand to the outstanding response (oid, ohop) at the moment more request bytes arrive?
+        If it already holds an entry for that request, or is already following that hop's redirect, it took a response
+        for finished which the server is still writing; otherwise it is plain pipelining."""
         cl = self.client
         if cl is not None:
             for e in list(cl.responses):
                 hdrs = (e.get("request") or {}).get("headers") or {}
                 if hdrs.get("X-Id") == oid:
-                    return "previous-response-abandoned-as-errored" if e.get("errored") else "previous-request-already-has-an-entry"
-            for r in list(cl.redirects):   # an errored redirect response is followed like a good one
-                hdrs = (r.get("request") or {}).get("headers") or {}
-                if hdrs.get("X-Id") == oid and r.get("errored"):
-                    return "previous-response-abandoned-as-errored"
+                    return "client-ended-previous-response-early"
+            mine = [r for r in list(cl.redirects) if ((r.get("request") or {}).get("headers") or {}).get("X-Id") == oid]
+            if len(mine) > ohop:
+                return "client-ended-previous-response-early"
         return "no-entry-for-previous-request-yet"
 
     def viol(self, key, msg):
@@ -344,7 +344,7 @@ class RawServer:
                 oid, ohop = w.outstanding
                 # did the client already give up on the outstanding request (an entry for it exists)?  Then it is not
                 # plain pipelining but a response abandoned half-way with the next request sent into the same stream.
-                how = w.abandoned(oid)
+                how = w.abandoned(oid, ohop)
                 w.viol("request-bytes-before-previous-response-complete:" + how,
                        f"{len(d)} bytes {bytes(d[:60])!r} arrived at {self.name}#{c.idx} while the response to {oid} hop {ohop} "
                        f"was not yet completely written by the scripted server")
